@@ -607,7 +607,13 @@ fn single_channel(reg: Reg, front: Front, ch: u8, rng: &mut Prng, col: &mut Coll
     } else {
         None
     };
-    for i in 0..6 {
+    // one history in four goes on through a long silence: the ADR back-off (uplinks 96, 128) must cope
+    // with whatever mask the command left behind
+    let n_up: usize = if rng.chance(1, 4) { rng.range(97, 135) as usize } else { 6 };
+    if n_up > 6 {
+        col.event("single_channel_long_silence");
+    }
+    for i in 0..n_up {
         let sc = match (i, &deleter) {
             (0, _) => &script,
             (2, Some(d)) => d,
